@@ -5,7 +5,8 @@ absolute); theorems: lean/PV/Props/C34.lean; driver: lean/Driver/C34.lean.
 
 Correspondence: the real `SFTPServerInterface.canonicalize` vs the model on every string over {'/', '.', 'a'} of
 length <= 8 (9841 strings, exhaustive), every string over {'/', '.', 'c', ':', '\\'} of length <= 6 containing ':' or
-'\\' (drive-letter and foreign-separator look-alikes, exhaustive) plus random paths built from separators, '.', '..', names, dotted names,
+'\\' (drive-letter and foreign-separator look-alikes, exhaustive), non-ASCII components built from every BMP character whose
+NFKC/NFKD/NFC/NFD/case-folded form contains '.', '/' or '\\' (alone, doubled, between names, in traversal shapes), plus random paths built from separators, '.', '..', names, dotted names,
 non-ASCII, NUL and backslashes; the depth walk of root + result for several roots; and a sample of the same paths
 through a real SFTP session (client.normalize -> CMD_REALPATH -> server.canonicalize -> CMD_NAME).
 Oracle (model-independent): result starts with '/', is '/' or '//' followed by components none of which is
@@ -49,6 +50,87 @@ def gen_random(rng, n):
             s = "/" * rng.randrange(1, 5) + s
         out.append(s)
     return out
+
+
+def folding_chars():
+    """code points of the BMP whose NFKC / NFKD / NFC / NFD / case-folded form contains '.', '/' or '\\' — characters
+    that are ordinary name characters for normpath but turn into dots or separators under a Unicode normalisation"""
+    import unicodedata
+
+    hits = []
+    for cp in range(0x80, 0x10000):
+        if 0xD800 <= cp <= 0xDFFF:
+            continue
+        ch = chr(cp)
+        forms = {unicodedata.normalize(f, ch) for f in ("NFKC", "NFKD", "NFC", "NFD")} | {ch.casefold(), ch.lower(), ch.upper()}
+        if any(x in f for f in forms for x in "./\\"):
+            hits.append(ch)
+    return hits
+
+
+def gen_unicode(rng, chars, n_random):
+    """the folding characters alone, doubled, as components between ordinary names, in traversal shapes; plus random
+    mixes with the ordinary atoms"""
+    out = []
+    for ch in chars:
+        out += [ch, ch + ch, ch + "/" + ch, "a/" + ch + "/b", ch + ch + "/x", "/" + ch, "/" + ch + ch,
+                ch + "/" + ch + "/etc/passwd", ch + ch + "/" + ch + ch + "/etc/passwd", "a/" + ch + ch + "/" + ch + ch + "/" + ch + ch,
+                ".." + ch + "..", ch + "..", "." + ch, "a" + ch + ch + ch + "b", "//" + ch + "/" + ch]
+    atoms = chars + ["/", "/", "/", ".", "..", "a", "etc", "é", "e\u0301", "Å", "ﬁ", "ß", "İ", "x" + (chars[0] if chars else "")]
+    for _ in range(n_random):
+        out.append("".join(rng.choice(atoms) for _ in range(rng.choice([1, 2, 3, 5, 8, 12]))))
+    return out
+
+
+def ast_fact_nothing_after_normpath(SI):
+    """AST fact: inside canonicalize(), `out` is assigned only by os.path.normpath(...) and by the documented win32
+    fix-up `out.replace("\\", "/")` under `if sys.platform == "win32"`, and `out` is what is returned.  Any other
+    transformation of the normalised path (a Unicode normalisation, a strip, a lower()) voids the theorem's
+    'no dot components' for the real code.  Returns a list of offending source fragments."""
+    import ast
+    import inspect
+    import textwrap
+
+    src = textwrap.dedent(inspect.getsource(SI.canonicalize))
+    fn = ast.parse(src).body[0]
+    allowed = set()
+
+    def is_normpath(v):
+        return isinstance(v, ast.Call) and isinstance(v.func, ast.Attribute) and v.func.attr == "normpath"
+
+    def is_win32(test):
+        return (isinstance(test, ast.Compare) and isinstance(test.left, ast.Attribute) and test.left.attr == "platform"
+                and len(test.ops) == 1 and isinstance(test.ops[0], ast.Eq)
+                and isinstance(test.comparators[0], ast.Constant) and test.comparators[0].value == "win32")
+
+    def is_replace(v):
+        return (isinstance(v, ast.Call) and isinstance(v.func, ast.Attribute) and v.func.attr == "replace"
+                and isinstance(v.func.value, ast.Name) and v.func.value.id == "out" and len(v.args) == 2
+                and all(isinstance(a, ast.Constant) for a in v.args) and [a.value for a in v.args] == ["\\", "/"])
+
+    for node in ast.walk(fn):
+        if isinstance(node, ast.Assign) and is_normpath(node.value):
+            allowed.add(id(node))
+        if isinstance(node, ast.If) and is_win32(node.test):
+            for sub in node.body:
+                if isinstance(sub, ast.Assign) and is_replace(sub.value):
+                    allowed.add(id(sub))
+    bad = []
+    for node in ast.walk(fn):
+        tgt = []
+        if isinstance(node, ast.Assign):
+            tgt = node.targets
+        elif isinstance(node, (ast.AugAssign, ast.AnnAssign)):
+            tgt = [node.target]
+        elif isinstance(node, ast.NamedExpr):
+            tgt = [node.target]
+        names = [t for t0 in tgt for t in ast.walk(t0) if isinstance(t, ast.Name) and t.id == "out"]
+        if names and id(node) not in allowed:
+            bad.append(ast.get_source_segment(src, node) or ast.dump(node)[:80])
+    for node in ast.walk(fn):
+        if isinstance(node, ast.Return) and not (isinstance(node.value, ast.Name) and node.value.id == "out"):
+            bad.append("return " + (ast.get_source_segment(src, node.value) or "?") if node.value is not None else "return")
+    return bad
 
 
 def check_one(ctx, path, out):
@@ -97,6 +179,12 @@ def run(ctx):
     ctx.build()
     rng = ctx.rng
     si = SFTPServerInterface(None)
+    extra_steps = ast_fact_nothing_after_normpath(SFTPServerInterface)
+    ctx.extra["statements_transforming_the_result_after_normpath"] = extra_steps
+    if extra_steps:
+        ctx.disagree("AST fact: canonicalize() assigns `out` only from os.path.normpath(...) and the win32 backslash "
+                     "replacement, and returns it", {"source": "paramiko/sftp_si.py canonicalize"},
+                     "normpath + win32 replace only", "also: %s" % extra_steps)
 
     paths = ["".join(t) for n in range(0, 9) for t in itertools.product("/.a", repeat=n)]
     n_exh = len(paths)
@@ -110,6 +198,14 @@ def run(ctx):
     paths += colon
     paths += ["c:/x", "c:/..", "c:/../../secret.txt", "C:\\..", "C:\\..\\..", "c:\\../..", "::", "a:b", "a:/../..", ":/..",
               "1:/../../etc/passwd", "c:", "c:/", "/c:/..", "cc:/../..", "é:/../.."]
+    # non-ASCII components, in particular every character that a Unicode normalisation / case folding turns into '.',
+    # '/' or '\\' (computed from unicodedata at run time): ordinary name characters for normpath
+    fold = folding_chars()
+    uni = gen_unicode(rng, fold, 20000 if ctx.thorough else 1500)
+    n_uni = len(uni)
+    uni_start = len(paths)
+    ctx.extra["unicode_folding_characters"] = ["U+%04X" % ord(c) for c in fold]
+    paths += uni
     paths += gen_random(rng, 200000 if ctx.thorough else 5000)
 
     reqs, outs = [], []
@@ -128,7 +224,8 @@ def run(ctx):
             continue
         nontrivial = (".." in p) or ("." in p.split("/")) or ("//" in p) or not p.startswith("/")
         ctx.case(p, nontrivial)
-        ctx.dist("exhaustive" if i < n_exh else "exhaustive-colon-backslash" if i < n_exh + n_colon else "random")
+        ctx.dist("exhaustive" if i < n_exh else "exhaustive-colon-backslash" if i < n_exh + n_colon else
+                 "unicode-folding" if uni_start <= i < uni_start + n_uni else "random")
         if ".." in p.split("/"):
             ctx.dist("has-dotdot")
         if i % 2500 == 7:
@@ -141,7 +238,7 @@ def run(ctx):
             ctx.fail(bad[0], {"path": p, "result": out}, bad[1])
         elif si.canonicalize(out) != out:  # theorem idempotent
             ctx.fail("not-idempotent", {"path": p, "result": out}, "canonicalize(result) = %r" % si.canonicalize(out))
-        if i % 7 == 0 or i >= n_exh:
+        if i % 7 == 0 or i >= uni_start or (i >= n_exh and i < n_exh + 18):
             root = ROOTS[i % len(ROOTS)]
             walk_reqs.append("walk %s %s" % (hx(root.encode()), hx(p.encode("utf-8"))))
             full = root + out
@@ -162,6 +259,7 @@ def run(ctx):
 
     sample = [p for p in paths[n_exh:] if "\x00" not in p][: (3000 if ctx.thorough else 150)]
     sample += [paths[k] for k in range(0, n_exh, 97)]
+    sample += [p for p in uni[:: max(1, n_uni // 60)] if "\x00" not in p]
     try:
         with lib_sftploop.Session() as s:
             for p in sample:
